@@ -60,11 +60,12 @@ MANIFEST = {
             'reported as an observation; crypto back ends and the filesystem are outside the model. The theorems bound '
             'the NUMBER of steps (handler calls, der_decode_partial calls, send-loop iterations), not the cost of one '
             'step: the faithfulness audit measured super-linear cost per step in four places that neither the theorems '
-            'nor the budgets of the oracle see - `_inpbuf += data` while an announced packet is incomplete (64 MiB: '
-            '5 s, unbounded buffer before authentication), `content[offset:]` re-slicing and big-integer shifts in '
-            'asn1.py (800 kB SEQUENCE: 5 s), a peer max packet size of 1 (one write() of 64 KiB holds the loop 25 s) '
-            'and the decompression ratio of zlib (1028:1); recorded in DESIGN 9.7 as violations of "time proportional '
-            'to the input" that this check does not decide',
+            'nor the round budgets of the oracle see. For the DER decoder the oracle therefore times single calls at n '
+            'and 4n bytes (CPU time, best of three): `content[offset:]` re-slicing in SEQUENCE/SET was quadratic (F110, '
+            'repaired), the big-integer shifts for one long OID component and for a long-form tag still are (known '
+            'F111 F112). Not decided by this check: `_inpbuf += data` while an announced packet is incomplete (64 MiB: '
+            '5 s, unbounded buffer before authentication), a peer max packet size of 1 (one write() of 64 KiB holds '
+            'the loop 25 s) and the decompression ratio of zlib (1028:1) - recorded in DESIGN 9.7',
     'technique': 'Lean 4 totality-with-measure proofs (structural / well-founded recursion on the input, explicit step '
                  'bounds) + translator for limits and guards + differential correspondence + budgeted fuzz oracle',
 }
@@ -545,6 +546,41 @@ def correspondence(ctx: Ctx) -> CorrResult:
 from props._c10_corpus import (limit_cases, run_limit_case, corpus_sftp_client)  # noqa: E402,F401
 
 
+def _scaling_input(fam: str, n: int) -> bytes:
+    def hdr(tag: bytes, length: int) -> bytes:
+        lb = length.to_bytes((length.bit_length() + 7) // 8 or 1, 'big')
+        return tag + (bytes([length]) if length < 0x80 else bytes([0x80 | len(lb)]) + lb)
+    if fam == 'sequence-of-nulls':
+        body = b'\x05\x00' * (n // 2)
+        return hdr(b'\x30', len(body)) + body
+    if fam == 'oid-one-long-component':
+        body = b'\x2a' + b'\xff' * (n - 2) + b'\x7f'
+        return hdr(b'\x06', len(body)) + body
+    if fam == 'long-form-tag':
+        return b'\x1f' + b'\xff' * (n - 4) + b'\x7f' + b'\x01\x00'
+    raise ValueError(fam)
+
+
+def scaling_probe() -> List[Tuple[str, float, float, int]]:
+    out = []
+    for fam, n in (('sequence-of-nulls', 100000), ('oid-one-long-component', 25000), ('long-form-tag', 25000)):
+        ts = []
+        for size in (n, 4 * n):
+            data = _scaling_input(fam, size)
+            best = None
+            for _ in range(3):
+                t0 = time.process_time()
+                try:
+                    asn1mod.der_decode(data)
+                except Exception:       # noqa: BLE001  (the error class is the correspondence's business)
+                    pass
+                dt = time.process_time() - t0
+                best = dt if best is None else min(best, dt)
+            ts.append(best or 0.0)
+        out.append((fam, ts[0], ts[1], n))
+    return out
+
+
 def plan_jobs(ctx: Ctx) -> List[Tuple[str, str, int, int]]:
     jobs: List[Tuple[str, str, int, int]] = []
     thorough = ctx.tier == 'thorough' or ctx.escalated
@@ -606,6 +642,18 @@ def oracle(ctx: Ctx) -> OracleResult:
             rep = {'kind': 'parser', 'target': kind, 'input': (data or '')[:12000], 'index': idx}
         rep['seed'] = ctx.seed
         res.failures.append(Failure(sig, f'{kind} case {idx}: {detail}', rep))
+    # cost of ONE decoder call as a function of the input length: "time proportional to the input".  The step counts
+    # of the theorems cannot see what one step costs, so three input families that make a single step expensive are
+    # timed at n and 4n bytes (CPU time of this process, best of three, so that load on the machine does not matter):
+    # a linear decoder needs about 4x, a quadratic one about 16x.
+    for fam, t1, t4, n in scaling_probe():
+        res.evaluations += 1
+        hist.hit('scaling:%s:%s' % (fam, 'linear' if t4 <= 9 * max(t1, 1e-4) or t4 < 0.25 else 'superlinear'))
+        if t4 > 9 * max(t1, 1e-4) and t4 >= 0.25:
+            res.failures.append(Failure(
+                'c10:superlinear:der:' + fam,
+                f'der_decode of {n} bytes ({fam}) takes {t1:.3f}s CPU, of {4 * n} bytes {t4:.3f}s: {t4 / max(t1, 1e-4):.1f}x '
+                f'the time for 4x the input', {'kind': 'scaling', 'family': fam, 'n': n}))
     # one failure per signature
     uniq: Dict[str, Failure] = {}
     for f in res.failures:
@@ -649,6 +697,11 @@ def replay_one(r: Dict[str, Any]) -> List[Failure]:
         key, sig, detail = P.run_case(r['target'], data)
         if sig:
             fails.append(Failure(sig, detail, r))
+        return fails
+    if kind == 'scaling':
+        for fam, t1, t4, n in scaling_probe():
+            if fam == r['family'] and t4 > 9 * max(t1, 1e-4) and t4 >= 0.25:
+                fails.append(Failure('c10:superlinear:der:' + fam, f'{t1:.3f}s -> {t4:.3f}s', r))
         return fails
     if kind == 'channel-open-params':
         o = pair.run(C.window_case(r['role'], r['window'], r['max_pktsize'], dropbear=r.get('dropbear', False)))
